@@ -45,7 +45,13 @@ pub mod mutex {
                 self.data.get_mut()
             }
             pub fn is_locked(&self) -> bool {
-                self.lock.load(Ordering::Relaxed)
+                let l = self.lock.load(Ordering::Relaxed);
+                if l {
+                    // whoever sees `true` is likely to ask again: tell the scheduler it is a spin
+                    // wait, so that a priority scheduler lets the holder run
+                    shuttle::hint::spin_loop();
+                }
+                l
             }
             pub fn try_lock(&self) -> Option<SpinMutexGuard<'_, T>> {
                 if self
@@ -58,6 +64,7 @@ pub mod mutex {
                         data: self.data.get(),
                     })
                 } else {
+                    shuttle::hint::spin_loop();
                     None
                 }
             }
